@@ -107,6 +107,10 @@ func c05Scenario(fault int, withCancel bool) {
 	e := New(zap.NewNop(), metrics, Config{Pools: []InstancePoolConfig{conf}})
 	ctx, cancel := context.WithCancel(context.Background())
 	cancelled := false
+	if fault == fNone || fault == fAggregatorLate {
+		aggr.metrics = &metrics
+		aggr.callerCancel = &cancelled
+	}
 	var cwg sync.WaitGroup
 	if withCancel {
 		cwg.Add(1)
@@ -177,14 +181,14 @@ func c05Scenario(fault int, withCancel bool) {
 
 func provFailed(p *hProvider) bool { return p.failAt >= 0 && p.failAt <= p.items }
 
-func HarnessC05NoFault()          { c05Scenario(fNone, false) }
-func HarnessC05NoFaultCancel()    { c05Scenario(fNone, true) }
-func HarnessC05Provider()         { c05Scenario(fProvider, false) }
-func HarnessC05AggregatorEarly()  { c05Scenario(fAggregatorEarly, false) }
-func HarnessC05AggregatorLate()   { c05Scenario(fAggregatorLate, false) }
-func HarnessC05NewGun()           { c05Scenario(fNewGun, false) }
-func HarnessC05Bind()             { c05Scenario(fBind, false) }
-func HarnessC05Schedule()         { c05Scenario(fSchedule, false) }
-func HarnessC05Warmup()           { c05Scenario(fWarmup, false) }
-func HarnessC05ShotPanic()        { c05Scenario(fShotPanic, false) }
-func HarnessC05ProviderCancel()   { c05Scenario(fProvider, true) }
+func HarnessC05NoFault()         { c05Scenario(fNone, false) }
+func HarnessC05NoFaultCancel()   { c05Scenario(fNone, true) }
+func HarnessC05Provider()        { c05Scenario(fProvider, false) }
+func HarnessC05AggregatorEarly() { c05Scenario(fAggregatorEarly, false) }
+func HarnessC05AggregatorLate()  { c05Scenario(fAggregatorLate, false) }
+func HarnessC05NewGun()          { c05Scenario(fNewGun, false) }
+func HarnessC05Bind()            { c05Scenario(fBind, false) }
+func HarnessC05Schedule()        { c05Scenario(fSchedule, false) }
+func HarnessC05Warmup()          { c05Scenario(fWarmup, false) }
+func HarnessC05ShotPanic()       { c05Scenario(fShotPanic, false) }
+func HarnessC05ProviderCancel()  { c05Scenario(fProvider, true) }
